@@ -9,12 +9,19 @@
     called from anywhere and in selectors — `Lemmas/DriverSignals.lean`;
   * hence the outcome of a run is never an internal signal (`run_never_sentinel`), for
     well-scoped programs; well-scopedness is what the parser's `inLoop`/`inFunction` flags
-    enforce (it is checked on every parsed program of the correspondence run: field `ws`).
+    enforce (it is checked on every parsed program of the correspondence run: field `ws`);
+  * and the parser does enforce it (`parse_wellScoped`, `parseExpr_scoped`, proved over all
+    parser functions in `Lemmas/ParserScope.lean`), so `run_never_sentinel_src` holds for every
+    program text with no hypothesis at all;
+  * one explicit `panic(` site is shown unreachable: `no_unhandled_literal` (every literal node
+    of a parsed program carries a literal token, `Lemmas/ParserWF.lean`).
   The absence of Go panics is covered by the correspondence check (class `panic`), by
   `Audit/FactsTie.lean` (the list of explicit `panic(` sites) and by C08's frame theorem (the
   root frame is never popped); it is not a theorem here — see DESIGN.md.
 -/
 import Jqawk.Lemmas.DriverSignals
+import Jqawk.Lemmas.ParserScope
+import Jqawk.Lemmas.ParserWF
 
 namespace Jqawk.C01
 open Jqawk
@@ -213,5 +220,102 @@ theorem run_never_sentinel (hws : prog.WellScoped) (src : Bytes) (tbl : RuleTabl
         exact hend _ _ (by rw [hee, (errOutcome_sentinel src e g).mp h])
       · intro h; cases h
       · intro h; cases h
+
+/-! ### the parser establishes well-scopedness (no hypothesis left) -/
+
+/-- **Every program that parses is well-scoped**, for every rule table and every source text:
+    `break`/`continue` occur only inside loop bodies, `return` only inside function bodies
+    (the parser's `inLoop`/`inFunction` flags, `Lemmas/ParserScope.lean`). -/
+theorem parse_wellScoped (tbl : RuleTable) (src : Bytes) (p : Program)
+    (h : parseProgramSrc tbl src = .ok p) : p.wellScopedB = true :=
+  parseProgramSrc_wellScopedB tbl src p h
+
+/-- non-vacuity: a program with a function, a loop with `break` and a `return` parses -/
+example : (match parseProgramSrc expectedRuleTable
+      b!"function f(x) { while (x) { if (x > 3) break; x++ } return x } $ > 1 { print f($) }" with
+    | .ok p => p.functions.length == 1 && p.rules.length == 1
+    | _ => false) = true := by decide +kernel
+
+/-- the same, in the form consumed by `run_never_sentinel` -/
+theorem parse_WellScoped (tbl : RuleTable) (src : Bytes) (p : Program)
+    (h : parseProgramSrc tbl src = .ok p) : p.WellScoped :=
+  wellScoped_of_B p (parse_wellScoped tbl src p h)
+
+/-- **Every selector expression that parses confines break / continue / return.** -/
+theorem parseExpr_scoped (tbl : RuleTable) (sel : Bytes) (e : Expr)
+    (h : parseExpressionSrc tbl sel = .ok e) : e.scopedB = true :=
+  parseExpressionSrc_scopedB tbl sel e h
+
+example : (match parseExpressionSrc expectedRuleTable b!"$.items[0]" with
+    | .ok _ => true | _ => false) = true := by decide +kernel
+
+/-- hence the selector hypothesis of `run_never_sentinel` always holds -/
+theorem selsScoped (tbl : RuleTable) (sels : List Bytes) : SelsScoped tbl sels := by
+  intro sel _ e he g hg
+  have h := parseExpr_scoped tbl sel e he
+  simp only [Expr.scopedB, confinedSigs, List.all_cons, List.all_nil, Bool.and_true,
+    Bool.and_eq_true, Bool.not_eq_true'] at h
+  cases g <;> simp_all [Sig.confined]
+
+/-- **No internal signal ever surfaces — unconditionally.**  For every rule table, program text,
+    selector list and input, the outcome of `evalProgram` (parse, then run) is never one of
+    next / exit / break / continue / return: either the text does not parse (syntax error), or
+    it parses to a well-scoped program (`parse_wellScoped`) and `run_never_sentinel` applies. -/
+theorem run_never_sentinel_src (tbl : RuleTable) (src : Bytes) (sels : List Bytes)
+    (files : List InputFile) (g : Sig) :
+    (evalProgram tbl src sels files).outcome ≠ .sentinel g := by
+  unfold evalProgram
+  split
+  · intro h; cases h
+  · intro h; cases h
+  · rename_i p hp
+    exact run_never_sentinel p (parse_WellScoped tbl src p hp) src tbl sels
+      (selsScoped tbl sels) files g
+
+/-! ### the `panic("unhandled literal type")` site of `evalExpr` is unreachable -/
+
+/-- evaluating a literal node whose token is a literal token (`Expr.nodeOK`) never takes the
+    `throwPanic "unhandled literal type"` branch — nor any other panic — of `evalExpr` -/
+theorem lit_never_panics (p : Program) (n : Nat) (t : Token) (h : (Expr.lit t).nodeOK = true)
+    (s s' : St) (m : String) : evalExpr p (n + 1) (.lit t) s ≠ .err (.panic m) s' := by
+  simp only [Expr.nodeOK] at h
+  unfold evalExpr
+  cases ht : t.tag <;> simp [litTag, ht] at h <;> dsimp only <;> rw [ht] <;> dsimp only
+  all_goals first
+    | (intro hc; cases hc; done)
+    | (cases evalStringLit t.text <;> dsimp only <;> intro hc <;> cases hc)
+    | (cases F64.parse t.text <;> dsimp only <;> intro hc <;> cases hc)
+
+/-- the hypothesis is needed: a literal node with a non-literal token does panic -/
+example : (match evalExpr Program.empty 1 (.lit ⟨.plus, 0, []⟩)
+      (newEvaluator Program.empty Heap.empty [] 0) with
+    | .err (.panic _) _ => true | _ => false) = true := by decide +kernel
+
+/-- **No unhandled literal**: every literal node anywhere in a program that parses (rule
+    patterns, rule bodies, function bodies, at any depth) carries a literal token
+    (`Lemmas/ParserWF.lean`: `parse_wf`), so evaluating it — in any state, with any fuel, in the
+    context of any program — never reaches `panic("unhandled literal type")`. -/
+theorem no_unhandled_literal (src : Bytes) (prog : Program)
+    (h : parseProgramSrc expectedRuleTable src = .ok prog) (t : Token)
+    (ht : Expr.lit t ∈ prog.subExprs) (p : Program) (n : Nat) (s s' : St) (m : String) :
+    evalExpr p (n + 1) (.lit t) s ≠ .err (.panic m) s' :=
+  lit_never_panics p n t (Program.nodeOK_of_wfB prog (parse_wf src prog h) _ ht) s s' m
+
+/-- non-vacuity: a parsed program with literal nodes of several kinds (string, number, regex,
+    field name after `.`, `true`, `null`) -/
+example : (match parseProgramSrc expectedRuleTable b!"$.name ~ /x/ { print \"a\", 1, true, null }" with
+    | .ok p => (p.subExprs.filter (fun e => match e with | .lit _ => true | _ => false)).length == 6
+    | _ => false) = true := by decide +kernel
+
+/-- the same for selector expressions -/
+theorem no_unhandled_literal_selector (sel : Bytes) (e : Expr)
+    (h : parseExpressionSrc expectedRuleTable sel = .ok e) (t : Token)
+    (ht : Expr.lit t ∈ e.subs) (p : Program) (n : Nat) (s s' : St) (m : String) :
+    evalExpr p (n + 1) (.lit t) s ≠ .err (.panic m) s' :=
+  lit_never_panics p n t (Expr.nodeOK_of_wfB e (parseExpr_wf sel e h) _ ht) s s' m
+
+example : (match parseExpressionSrc expectedRuleTable b!"$.items[0]" with
+    | .ok e => (e.subs.filter (fun e => match e with | .lit _ => true | _ => false)).length == 2
+    | _ => false) = true := by decide +kernel
 
 end Jqawk.C01
